@@ -92,6 +92,10 @@ class SymS(_Base):
     def ex_int(self, i, k=0):
         return self._vd.Decimal(("grid", self._poly(i), k))
 
+    def eq(self, a, b):
+        """exact equality of two oracle values (symbolic mode: exact rational arithmetic)"""
+        return a == b
+
     def assume(self, cond):
         if not cond:
             from .engine import PathAbort  # pylint: disable=import-outside-toplevel
@@ -160,6 +164,11 @@ class ConS(_Base):
 
     def ex_int(self, i, k=0):
         return Fraction(i, 10**k)
+
+    def eq(self, a, b):
+        """equality up to the real decimal module's 31-digit rounding of intermediate results"""
+        a, b = Fraction(a), Fraction(b)
+        return a == b or abs(a - b) <= Fraction(1, 10**22) * (abs(a) + abs(b)) + Fraction(1, 10**28)
 
     def assume(self, cond):
         if not cond:
